@@ -10,7 +10,7 @@
   * the path lemmas behind it: `lexicalNormal_clean` (normalisation leaves a clean path alone),
     `pathComponents_clean`, `inv_push`, `withFileName_cfg` (the config file name is irrelevant,
     `with_file_name(v)` is `inv.push(v)`), `new_ok` (when the constructor succeeds and with what).
-  * `option_uses_yaml_text` / `quoted_option_differs` (recorded finding): the options route uses
+  * `option_text` / `quoted_option_agrees` (repaired defect D15): the options route uses
     the YAML *text* of the option value, not the string value; when the two differ (a string that
     YAML must quote, such as `'123'`), the two routes name different directories.
 
@@ -211,11 +211,11 @@ theorem withFileName_cfg (inv name v : Str) (hn : '/' ∉ name) :
   unfold withFileName; rw [pathParent_cfg inv name hn]
 
 theorem setOption_nodes (k : ConfigM) (p : Str) (v : Yaml) (vs : Str) :
-    k.setOption p "nodes_uri".toList v vs = .ok { k with nodesPath := withFileName p vs } := by
+    k.setOption p "nodes_uri".toList v vs = .ok { k with nodesPath := withFileName p (optText v vs) } := by
   unfold ConfigM.setOption; rw [if_pos rfl]
 
 theorem setOption_classes (k : ConfigM) (p : Str) (v : Yaml) (vs : Str) :
-    k.setOption p "classes_uri".toList v vs = .ok { k with classesPath := withFileName p vs } := by
+    k.setOption p "classes_uri".toList v vs = .ok { k with classesPath := withFileName p (optText v vs) } := by
   unfold ConfigM.setOption; rw [if_neg (by decide), if_pos rfl]
 
 theorem setOption_ignore (k : ConfigM) (p : Str) (b : Bool) (vs : Str) :
@@ -255,7 +255,7 @@ theorem ctor_eq_options (pre : Str) (comps : List Str) (n c cfgname vs : Str) (i
     refine ⟨by decide, by decide, by decide, by decide⟩
   refine ⟨_, new_ok pre hpre comps hne hcomps (some n) (some c) (some ig) hn hc hnc, ?_, rfl, rfl⟩
   rw [new_ok pre hpre comps hne hcomps none none none hdn hdc (by decide)]
-  simp only [Except.bind, ConfigM.load, ConfigM.setOptions, setOption_nodes, setOption_classes, setOption_ignore,
+  simp only [Except.bind, ConfigM.load, ConfigM.setOptions, setOption_nodes, setOption_classes, setOption_ignore, optText,
     withFileName_cfg _ _ _ hcfg, (inv_push pre comps hne hcomps n hn).1, (inv_push pre comps hne hcomps c hc).1]
   rw [compile_default _ rfl]
   rfl
@@ -290,43 +290,47 @@ theorem overlap_checked_only_by_ctor :
         k.nodesPath = k.classesPath) :=
   ⟨⟨_, rfl⟩, ⟨_, rfl, rfl⟩⟩
 
-/-! ## The options route uses the YAML text -/
+/-! ## Path options: strings as written, other scalars through their YAML text -/
 
-/-- `set_option("nodes_uri" | "classes_uri", v)` stores `with_file_name(vstr)` where `vstr` is
-the serialised YAML text of `v`; the value `v` itself is not looked at. -/
-theorem option_uses_yaml_text (k : ConfigM) (p : Str) (v : Yaml) (vstr : Str) :
-    k.setOption p "nodes_uri".toList v vstr = .ok { k with nodesPath := withFileName p vstr } ∧
-    k.setOption p "classes_uri".toList v vstr = .ok { k with classesPath := withFileName p vstr } :=
+/-- `set_option("nodes_uri" | "classes_uri", v)` stores `with_file_name(t)` where `t` is the string itself when `v`
+is a YAML string and the serialised YAML text of `v` otherwise. -/
+theorem option_text (k : ConfigM) (p : Str) (v : Yaml) (vstr : Str) :
+    k.setOption p "nodes_uri".toList v vstr = .ok { k with nodesPath := withFileName p (optText v vstr) } ∧
+    k.setOption p "classes_uri".toList v vstr = .ok { k with classesPath := withFileName p (optText v vstr) } :=
   ⟨setOption_nodes k p v vstr, setOption_classes k p v vstr⟩
 
-/-- **Recorded finding (quoted option).** The string `123` must be written `'123'` in YAML.
-Given as `nodes_uri` through a config file or dict it is stored with the quotes
-(`/i/'123'`), given to the constructor it is stored without (`/i/123`): the two routes name
-different directories. -/
-theorem quoted_option_differs :
+/-- A string-valued path option does not depend on how YAML would spell the string: whatever
+`serde_yaml::to_string` makes of it (`'123'`, `"true"`, `'a: b'`), the stored path is built from the string. -/
+theorem string_option_ignores_yaml_text (k : ConfigM) (p s vstr vstr' : Str) :
+    k.setOption p "nodes_uri".toList (.str s) vstr = k.setOption p "nodes_uri".toList (.str s) vstr' ∧
+    k.setOption p "classes_uri".toList (.str s) vstr = k.setOption p "classes_uri".toList (.str s) vstr' := by
+  simp only [setOption_nodes, setOption_classes, optText, and_self]
+
+/-- **Repaired defect D15 (quoted option).** The string `123` must be written `'123'` in YAML.  Given as `nodes_uri`
+through a config file or dict it is stored as `/i/123`, exactly as the constructor stores it (the pinned code stored
+`/i/'123'`). -/
+theorem quoted_option_agrees :
     (((ConfigM.new "/i".toList none none none).bind fun k0 =>
         k0.load "/i/reclass-config.yml".toList
           [⟨"nodes_uri".toList, .str "123".toList, "'123'".toList⟩]).toOption.map (·.nodesPath)
-      = some "/i/'123'".toList) ∧
+      = some "/i/123".toList) ∧
     ((ConfigM.new "/i".toList (some "123".toList) none none).toOption.map (·.nodesPath)
       = some "/i/123".toList) :=
   ⟨rfl, rfl⟩
 
-/-- The same in general: for clean names, if the YAML text differs from the string, the stored
-paths differ. -/
-theorem quoted_option_differs_general (pre : Str) (comps : List Str) (s vstr cfgname : Str) (k : ConfigM)
-    (hne : comps ≠ []) (hcomps : ∀ s ∈ comps, CleanComp s)
-    (hs : CleanComp s) (hv : CleanComp vstr) (hd : vstr ≠ s) (hcfg : '/' ∉ cfgname) :
+/-- The same in general: for clean names the options route stores the path the constructor stores, whatever the
+YAML text of the string is. -/
+theorem string_option_eq_ctor_path (pre : Str) (comps : List Str) (s vstr cfgname : Str) (k : ConfigM)
+    (hcfg : '/' ∉ cfgname) :
     ∃ k', k.setOption (pre ++ joinWith ['/'] comps ++ '/' :: cfgname) "nodes_uri".toList (.str s) vstr = .ok k' ∧
-      k'.nodesPath = pre ++ joinWith ['/'] comps ++ '/' :: vstr ∧
-      k'.nodesPath ≠ pathPush (pre ++ joinWith ['/'] comps) s := by
-  refine ⟨_, setOption_nodes _ _ _ _, ?_, ?_⟩
-  · simp only [withFileName_cfg _ _ _ hcfg]
-    exact (inv_push pre comps hne hcomps vstr hv).1
-  · simp only [withFileName_cfg _ _ _ hcfg]
-    rw [(inv_push pre comps hne hcomps vstr hv).1, (inv_push pre comps hne hcomps s hs).1]
-    intro h
-    exact hd (by simpa using h)
+      k'.nodesPath = pathPush (pre ++ joinWith ['/'] comps) s := by
+  refine ⟨_, setOption_nodes _ _ _ _, ?_⟩
+  simp only [optText, withFileName_cfg _ _ _ hcfg]
+
+/-- A non-string scalar (`nodes_uri: 123`) is still accepted through its YAML text. -/
+theorem scalar_option_uses_yaml_text (k : ConfigM) (p : Str) (n : Num) (vstr : Str) :
+    k.setOption p "nodes_uri".toList (.num n) vstr = .ok { k with nodesPath := withFileName p vstr } :=
+  setOption_nodes k p (.num n) vstr
 
 /-! ### Non-vacuity -/
 
